@@ -106,7 +106,7 @@ class Sym:
         # opaque inputs: variables whose defining expression is outside the fragment (frequency[index], np.max(...)); they
         # stand for "the value this variable holds". Never an output of the slice.
         self.inputs = {p: (lean_ident(p), t) for p, t in spec["params"] if p in spec.get("opaque", [])}
-        self.abstract = {k: (lean_ident(v), "num") for k, v in spec.get("abstract", {}).items()}
+        self.abstract = {k: ((lean_ident(v), "num") if isinstance(v, str) else (lean_ident(v[0]), v[1])) for k, v in spec.get("abstract", {}).items()}
         self.tree = None
         self.cls = spec.get("cls")
         self.depth = 0
@@ -326,6 +326,8 @@ class Sym:
                     m = {ast.Eq: f"({a} = some {b})", ast.NotEq: f"(¬ ({a} = some {b}))"}
                 elif ta == "str" and tb == "str":
                     m = {ast.Eq: f"({a} = {b})", ast.NotEq: f"(¬ ({a} = {b}))"}
+                elif ta == "onum" and tb == "none":
+                    m = {ast.Is: f"({a}.isNone = true)", ast.IsNot: f"({a}.isNone = false)", ast.Eq: f"({a}.isNone = true)"}
                 elif ta == "ostr" and tb == "none":
                     m = {ast.Is: f"({a} = none)", ast.IsNot: f"(¬ ({a} = none))", ast.Eq: f"({a} = none)"}
                 else:
@@ -397,6 +399,18 @@ class Sym:
                 value = ast.BinOp(left=s.target, op=s.op, right=s.value)
             name = target_name(tgt)
             env2 = dict(env)
+            unpack = self.spec.get("unpack", {})
+            if isinstance(tgt, ast.Tuple) and dotted(value) in unpack and len(tgt.elts) == len(unpack[dotted(value)]):
+                for el, pname in zip(tgt.elts, unpack[dotted(value)]):     # `a, b = pair`: the components are inputs of the slice
+                    if dotted(el) is None:
+                        raise Untranslatable("unpacking target")
+                    env2[dotted(el)] = env[pname]
+                return self.run(rest, env2)
+            if name in self.spec.get("int_vars", []) and isinstance(value, ast.Constant) and isinstance(value.value, int) and not isinstance(value.value, bool):
+                self.counter += 1
+                fresh = f"{lean_ident(name)}_{self.counter}"
+                env2[name] = (fresh, "int")
+                return f"(let {fresh} : Int := ({value.value} : Int); {self.run(rest, env2)})"
             if name is None:
                 # writes into containers (x[i] = ..., a, b = ...) poison what they touch
                 for n in self.assigned([s]):
@@ -559,7 +573,11 @@ class Sym:
                     lets += z
                     continue
                 try:
-                    e, t = self.expr(value, env)
+                    if name in self.spec.get("int_vars", []) and isinstance(value, ast.Constant) and isinstance(value.value, int) \
+                            and not isinstance(value.value, bool):
+                        e, t = f"({value.value} : Int)", "int"
+                    else:
+                        e, t = self.expr(value, env)
                     if t == "prop":
                         e, t = f"(decide {e})", "bool"
                 except Untranslatable:
@@ -567,7 +585,7 @@ class Sym:
                     continue
                 self.counter += 1
                 fresh = f"{lean_ident(name)}_{self.counter}"
-                lets += f"let {fresh}{' : α' if t == 'num' else ''} := {e}; "
+                lets += f"let {fresh}{' : α' if t == 'num' else (' : Int' if t == 'int' else '')} := {e}; "
                 env[name] = (fresh, t)
                 continue
             raise Untranslatable(type(s).__name__)
@@ -641,7 +659,7 @@ def find_lambda(tree, path):
     raise Untranslatable(f"{var} not found")
 
 
-LEAN_TYPES = {"num": "α", "str": "String", "table": "List (String × String)", "bool": "Bool", "int": "Int"}
+LEAN_TYPES = {"num": "α", "str": "String", "table": "List (String × String)", "bool": "Bool", "int": "Int", "onum": "Option α"}
 
 
 def translate(repo, spec):
@@ -822,6 +840,13 @@ TARGETS = [
     dict(group="Readers", name="peer_orientation", file="hvsrpy/data_wrangler.py", func="_read_peer", start_at_test="degrees_from_north is None", stop_before="npts",
          abstract={"component_keys_abs[ns_id]": "ns_azimuth"}, consts={"degrees_from_north": None},
          params=[("ns_azimuth", "num")], out=["degrees_from_north"]),
+    # HvsrCurve._search_range_to_index_range: None is the only open end; a limit selects the nearest sample (upper end inclusive)
+    dict(group="Peaks", name="search_range_to_index_range", file="hvsrpy/hvsr_curve.py", cls="HvsrCurve", func="_search_range_to_index_range",
+         check_args=["frequency", "search_range_in_hz"], unpack={"search_range_in_hz": ["f_low", "f_high"]}, int_vars=["f_low_idx", "f_high_idx"],
+         abstract={"np.argmin(np.abs(frequency - f_low))": ("nearest_low", "int"), "np.argmin(np.abs(frequency - f_high))": ("nearest_high", "int"),
+                   "len(frequency)": ("n_frequency", "int")},
+         params=[("f_low", "onum"), ("f_high", "onum"), ("nearest_low", "int"), ("nearest_high", "int"), ("n_frequency", "int")],
+         out=["return"], out_types=["int", "int"]),
     # frequency-domain window rejection: the accept decision of the inner loop (None = window skipped, its masks are kept) ...
     dict(group="Fdwra", name="fdwra_keep", file="hvsrpy/window_rejection.py", func="_frequency_domain_window_rejection",
          descend=["c_iteration", "c_peak"], params=[("c_valid", "bool"), ("c_peak", "num"), ("lower_bound", "num"), ("upper_bound", "num")],
@@ -834,7 +859,7 @@ TARGETS = [
 ]
 
 
-GROUPS = ["Combine", "Azimuth", "Orient", "Windows", "Stats", "Sesame", "Fdwra", "Psd", "Nyquist", "Spatial", "Split", "Readers"]
+GROUPS = ["Combine", "Azimuth", "Orient", "Windows", "Stats", "Sesame", "Fdwra", "Psd", "Nyquist", "Spatial", "Split", "Readers", "Peaks"]
 
 
 def emit(repo):
